@@ -39,6 +39,7 @@ def check_predictions(r, case, preds, clusters, tag):
     else:
         outs = [s["predicted_label"][t] for t in range(nt)]
     ntc = 0
+    require(s["sg_constant"] > 0, "model:positive_density_constant", "stored constant %r" % s["sg_constant"])
     for q in range(case["nq"]):
         got = (preds[q], clusters[q]) if case["model"] == "unsup" else preds[q]
         adm, info = knncase.admissible_outputs(r.DQ[q], costs, outs, k, s["sg_constant"], s["sg_min_density"], s["sg_max_density"])
